@@ -889,10 +889,23 @@ func (v *view) oracleC03() {
 		return // no stream was handed to the caller
 	}
 	strict := okT || !v.disturbedBefore(t.RSeq)
+	// after the context ended, an outcome that is the handler's own status (and
+	// cannot be mistaken for the cancellation status) is "the complete real
+	// result": it comes with all its metadata, or it is a mixture of the two
+	realAfterCtx := false
+	if !strict && v.ctxDoneBefore(t.RSeq) && !v.cutBefore(t.RSeq) && !v.hReturn.Err.IsNil() && t.Err != nil && t.Err.Class == "status" {
+		exp := expectedFrom(v.hReturn.Err)
+		if m, _ := exp.matches(t.Err); m && !exp.anyNonOK && !exp.anyMsg {
+			c := codes.Code(t.Err.Code)
+			if c != codes.Canceled && c != codes.DeadlineExceeded {
+				realAfterCtx, strict = true, true
+			}
+		}
+	}
 	if !strict || v.clientSideFailure() {
 		return
 	}
-	if v.single && !okT && (v.responsesProduced() != 1 || len(v.hSend) != 1) {
+	if v.single && !okT && (v.responsesProduced() > 1 || len(v.hSend) > 1 || (v.hReturn.Err.IsNil() && (v.responsesProduced() != 1 || len(v.hSend) != 1))) {
 		return // the client aborted the call over the response count
 	}
 	tag := "on-failure"
@@ -902,6 +915,15 @@ func (v *view) oracleC03() {
 	if wl := v.wireLimit(); wl != "" {
 		tag += "|" + outcomeShape(t.Err) + "|" + wl
 	}
+	if realAfterCtx {
+		tag += "|real-status-after-context-ended"
+	}
+	nfail := len(v.s.viols)
+	defer func() {
+		if realAfterCtx && len(v.s.viols) > nfail {
+			v.fail("C04", "mixture|real-status-with-missing-metadata", "after the context ended (%s) the call returned the handler's own status %s, but not all of the headers/trailers that belong to it: neither the complete real result nor the cancellation status", v.rs.ctxCause, t.Err)
+		}
+	}()
 	// (iv)/(v) at the final status trailers and headers are all there
 	for i, o := range t.OptT {
 		if ok, why := mdContains(o, expT); !ok {
@@ -958,6 +980,12 @@ func (v *view) oracleC04() {
 	}
 	if sf := v.stubFail(); sf != nil {
 		evs = append(evs, sf) // what a generated server-stream stub returns
+	}
+	for _, hv := range v.cHeader {
+		// Header() is how a caller receives the response headers
+		if hv.Err != nil && !hv.Err.IsNil() {
+			evs = append(evs, hv)
+		}
 	}
 	for _, ev := range evs {
 		if ev.RSeq == 0 || ev.RSeq < v.ctxSeq || ev.Err == nil {
@@ -1177,7 +1205,7 @@ func (v *view) oracleC08() {
 		switch {
 		case v.hReturn == nil || v.hReturn.Seq > t.RSeq:
 			// covered by C02
-		case okN != 1 || produced != 1:
+		case okN != 1 || v.mayHaveProduced() != 1:
 			v.fail("C08", fmt.Sprintf("success-with-%s-responses", countWord(produced)), "caller got a response and success although the handler sent %d responses (%d handed over)", produced, okN)
 		case !v.hReturn.Err.IsNil():
 			v.fail("C08", "success-although-handler-failed", "caller got a response and success although the handler returned %s", v.hReturn.Err)
@@ -1191,6 +1219,18 @@ func (v *view) oracleC08() {
 			v.fail("C08", "bare-EOF", "handler produced %d responses; Invoke returned a bare io.EOF", produced)
 		}
 	}
+}
+
+// mayHaveProduced: response sends that returned nil or have not returned (a
+// send whose error told the handler that nothing was handed over does not count).
+func (v *view) mayHaveProduced() int {
+	n := 0
+	for _, sd := range v.hSend {
+		if sd.RSeq == 0 || sd.Err.IsNil() {
+			n++
+		}
+	}
+	return n
 }
 
 func countWord(n int) string {
